@@ -468,6 +468,7 @@ func (r *roSC) Close()                            {}
 
 func runRoCase(x *acCtx, c *acCase) {
 	file := c.A.build()
+	roLimitRefused(x, c, file)
 	path := filepath.Join(x.dir, "ro.car")
 	os.WriteFile(path, file, 0o644)
 	defer os.Remove(path)
@@ -617,6 +618,38 @@ func roRefusesWrites(b *blockstore.ReadOnly, path string, file []byte, onDisk bo
 		return "AllKeysChan on a closed read-only blockstore returned a channel"
 	}
 	return ""
+}
+
+// roLimitRefused: when the opener has to generate the index (CARv1, index-less CARv2) and MaxIndexCidSize is below the
+// length of a CID that would be indexed, opening fails with ErrCidTooLarge -- as GenerateIndex does (C03).
+func roLimitRefused(x *acCtx, c *acCase, file []byte) {
+	if c.A.Ver == 2 && c.A.Idx != "none" {
+		return
+	}
+	maxCid := 0
+	for _, id := range c.A.Secs {
+		if q := alphaByID[id].Cid; !isIdentityCid(q) && q.ByteLen() > maxCid {
+			maxCid = q.ByteLen()
+		}
+	}
+	if maxCid < 2 {
+		return
+	}
+	opts := []carv2.Option{carv2.MaxIndexCidSize(uint64(maxCid - 1))}
+	if c.A.Npad > 0 {
+		opts = append(opts, carv2.ZeroLengthSectionAsEOF(true))
+	}
+	x.rep.eval(canon(c.A)+"ro-limit", true)
+	var tl *carv2.ErrCidTooLarge
+	if b, err := blockstore.NewReadOnly(&readerAtOnly{bytes.NewReader(file)}, nil, opts...); !errors.As(err, &tl) {
+		if err == nil {
+			b.Close()
+		}
+		x.viol("readonly/limit-not-enforced/blockstore.NewReadOnly", c, fmt.Sprintf("MaxIndexCidSize=%d below a %d-byte CID: opening returned %v, index generation refuses with ErrCidTooLarge", maxCid-1, maxCid, err), map[string]any{"mode": "ro"})
+	}
+	if _, err := storage.OpenReadable(bytes.NewReader(file), opts...); !errors.As(err, &tl) {
+		x.viol("readonly/limit-not-enforced/storage.OpenReadable", c, fmt.Sprintf("MaxIndexCidSize=%d below a %d-byte CID: opening returned %v, index generation refuses with ErrCidTooLarge", maxCid-1, maxCid, err), map[string]any{"mode": "ro"})
+	}
 }
 
 func b2i(b bool) int {
